@@ -61,6 +61,12 @@ pub(crate) fn indexed_cells(net: &Net, script: &packed::Script, is_lock: bool) -
 
 /// answer GetBlocksProof / GetBlocks requests honestly until the client is quiet
 pub(crate) fn pump_downloads(net: &mut Net, bc: &BodyChain, first: Vec<(PeerIndex, Sent)>, problems: &mut Vec<String>) {
+    let _ = pump_downloads_until(net, bc, first, problems, false);
+}
+
+/// as pump_downloads; with `stop_at_record` it stops as soon as one pending record has been completed and returns what is still unanswered
+pub(crate) fn pump_downloads_until(net: &mut Net, bc: &BodyChain, first: Vec<(PeerIndex, Sent)>, problems: &mut Vec<String>, stop_at_record: bool) -> Vec<(PeerIndex, Sent)> {
+    let records0 = matched_records(net).len();
     let mut queue = first;
     for _ in 0..40 {
         if queue.is_empty() { break; }
@@ -80,6 +86,7 @@ pub(crate) fn pump_downloads(net: &mut Net, bc: &BodyChain, first: Vec<(PeerInde
                             let r = net.sp_recv(p, send_block_message(bc.chain.block(n)));
                             if r.panicked { problems.push(format!("[C10-handler-panic] SendBlock panicked: {}", super::last_panic())); }
                             next.extend(r.sent);
+                            if stop_at_record && matched_records(net).len() < records0 { return next; }
                         }
                     }
                 }
@@ -88,6 +95,7 @@ pub(crate) fn pump_downloads(net: &mut Net, bc: &BodyChain, first: Vec<(PeerInde
         }
         queue = next;
     }
+    Vec::new()
 }
 
 pub(crate) fn run(seed: u64, n: u64, out: &mut Out) {
@@ -180,6 +188,8 @@ pub(crate) fn run(seed: u64, n: u64, out: &mut Out) {
         }
 
         let steps = rng.range(3, 9);
+        let delayed_world = world % 4 == 1;
+        let mut held: Vec<(PeerIndex, Sent)> = Vec::new();
         for _step in 0..steps {
             let min_before = net.storage.get_min_filtered_block_number();
             let honest_batch = rng.range(1, interval + 5);
@@ -332,6 +342,16 @@ pub(crate) fn run(seed: u64, n: u64, out: &mut Out) {
             if ban != 0 && what == "honest" { problems.push(format!("[C06-honest-batch-banned] an authentic batch was answered with a ban ({})", ban)); }
             // ---- let the downloads happen (honest answers), then look for skipped activity ----
             let mut follow = r.sent.clone();
+            if delayed_world {
+                // the answers are held back until two records are pending; then exactly the first record is completed and the
+                // index is judged at that moment (get_scripts must not run ahead of the record still waiting)
+                held.extend(follow.drain(..));
+                if matched_records(&net).len() >= 2 {
+                    let rest = pump_downloads_until(&mut net, &bc, std::mem::take(&mut held), &mut problems, true);
+                    if let Some(p) = index_problem(&net, &bc, &pool, &reg, "first-of-two-records-completed") { problems.push(p); }
+                    pump_downloads(&mut net, &bc, rest, &mut problems);
+                }
+            }
             if rng.chance(1, 6) { follow.clear(); }   // sometimes the answers come later
             pump_downloads(&mut net, &bc, follow, &mut problems);
             if rng.chance(1, 8) {
@@ -357,7 +377,23 @@ pub(crate) fn run(seed: u64, n: u64, out: &mut Out) {
                     problems.push(format!("[C06-unproven-block-indexed] [C02-unproven-block-indexed] a SendBlock for a matched hash that was never proven (a block of another branch) was processed: script numbers {:?} -> {:?}", before, after));
                 }
             }
-            for ss in net.storage.get_filter_scripts() {
+            if let Some(p) = index_problem(&net, &bc, &pool, &reg, what) { problems.push(p); }
+            let skipped = problems.iter().any(|p| p.contains("skip"));
+            let oracle = if problems.is_empty() { Ok(()) } else { Err(problems.join(" || ")) };
+            out.case(&format!("filters-{}", case_no), &["block-filters", what, if start <= fin_index as u64 * interval { "cached-regime" } else { "latest-regime" }],
+                &format!("(run_filters {} {})", world_term, msg_term), &v, oracle,
+                &format!("world {}: chain {} blocks, {} proven peers (quorum {}), finalized index {}, min filtered {}, BlockFilters(start {}, {} filters, {} hashes) [{}]", world, len, n_peers, required, fin_index, min_before, start, filters.len(), hashes.len(), what));
+            case_no += 1;
+            if r.panicked || skipped { break; }
+        }
+    }
+}
+
+
+/// every registered script's index against the chain, up to the number get_scripts reports for it
+fn index_problem(net: &Net, bc: &BodyChain, pool: &[packed::Script], reg: &[(usize, bool, u64)], what: &str) -> Option<String> {
+    let mut problems: Vec<String> = Vec::new();
+    for ss in net.storage.get_filter_scripts() {
                 let sid = pool.iter().position(|s| s == &ss.script).unwrap();
                 let is_lock = ss.script_type == ScriptType::Lock;
                 let from = reg.iter().find(|r| r.0 == sid && r.1 == is_lock).map(|r| r.2).unwrap_or(0);
@@ -380,17 +416,8 @@ pub(crate) fn run(seed: u64, n: u64, out: &mut Out) {
                     break;
                 }
             }
-            let skipped = problems.iter().any(|p| p.contains("skip"));
-            let oracle = if problems.is_empty() { Ok(()) } else { Err(problems.join(" || ")) };
-            out.case(&format!("filters-{}", case_no), &["block-filters", what, if start <= fin_index as u64 * interval { "cached-regime" } else { "latest-regime" }],
-                &format!("(run_filters {} {})", world_term, msg_term), &v, oracle,
-                &format!("world {}: chain {} blocks, {} proven peers (quorum {}), finalized index {}, min filtered {}, BlockFilters(start {}, {} filters, {} hashes) [{}]", world, len, n_peers, required, fin_index, min_before, start, filters.len(), hashes.len(), what));
-            case_no += 1;
-            if r.panicked || skipped { break; }
-        }
-    }
+    problems.into_iter().next()
 }
-
 
 /// Download order: the bodies of one pending matched record arrive in any order; SyncProtocol must index them in
 /// block-number order.  Every block of the record spends the cell its predecessor created and creates the next one, so any two
